@@ -28,7 +28,15 @@ def _rows(ctx, p, n, heights=False):
             ctx.assume(di >= d[-1])
         t.append(ti)
         d.append(di)
-    rows = [mkrow(p, time=t[i], dist_ft=d[i]) for i in range(n)]
+    # sight-line distance column: independent of the distance column (inclined sight line), also non-decreasing
+    look = []
+    for i in range(n):
+        li = ctx.real(f'look{i}', 0, 2e6)
+        ctx.assume(li >= d[i])
+        if i:
+            ctx.assume(li >= look[-1])
+        look.append(li)
+    rows = [mkrow(p, time=t[i], dist_ft=d[i], look_ft=look[i]) for i in range(n)]
     return t, d, rows
 
 
@@ -133,6 +141,12 @@ def c20_distance(ctx, n, unit):
         ctx.check('accessor_row', want2 >= 0 and row is rows[want2])
     except ArithmeticError:
         ctx.check('accessor_row', want2 < 0)
+    # every other result accessor that looks a row up by distance: the danger-space query centres on the same row
+    try:
+        ds = hr.danger_space(dq, p.Distance.Foot(0.0), p.Angular.Radian(0.0))
+        ctx.check('accessor_row', want2 >= 0 and ds.at_range is rows[want2], info={'via': 'danger_space'})
+    except ArithmeticError:
+        ctx.check('accessor_row', want2 < 0, info={'via': 'danger_space'})
 
 
 @harness('C20.generic', 'C20', configs=lambda tier: _cfg_n(tier), functions=FUNCS, cost=3,
